@@ -21,7 +21,7 @@ namespace Life
 
 /-- The single-actor ops that `World.effects` / `World.cascade` apply to other actors. -/
 def AOp.isRouted : AOp → Bool
-  | .supArrive _ | .treeTaken | .kidAdd _ | .kidDel _ => true
+  | .supArrive _ | .treeTaken | .kidAdd _ | .kidDel _ | .monDrop _ => true
   | _ => false
 
 theorem routed_phase (a : Actor) (op : AOp) (h : AOp.isRouted op = true) : (a.step op).1.phase = a.phase := by
@@ -34,6 +34,7 @@ theorem routed_phase (a : Actor) (op : AOp) (h : AOp.isRouted op = true) : (a.st
 def emitsOf : List WOut → List (Nat × SupEv)
   | [] => []
   | (_, .ev (.emit p e)) :: l => (p, e) :: emitsOf l
+  | (_, .eff (.monSend m e)) :: l => (m, e) :: emitsOf l     -- the copy for monitor `m`
   | _ :: l => emitsOf l
 
 /-- Supervision arrivals among tagged outputs: (receiver, event). -/
@@ -49,6 +50,7 @@ theorem emitsOf_append (l1 l2 : List WOut) : emitsOf (l1 ++ l2) = emitsOf l1 ++ 
     obtain ⟨i, o⟩ := o
     cases o with
     | ev e => cases e <;> simp [emitsOf, ih]
+    | eff x => cases x <;> simp [emitsOf, ih]
     | _ => simp [emitsOf, ih]
 
 theorem arrivalsOf_append (l1 l2 : List WOut) : arrivalsOf (l1 ++ l2) = arrivalsOf l1 ++ arrivalsOf l2 := by
@@ -61,7 +63,8 @@ theorem arrivalsOf_append (l1 l2 : List WOut) : arrivalsOf (l1 ++ l2) = arrivals
     | _ => simp [arrivalsOf, ih]
 
 /-- Outputs (of one actor) that carry neither an emitted event nor an arrival. -/
-def quiet (l : List Out) : Prop := ∀ o ∈ l, (∀ p e, o ≠ .ev (.emit p e)) ∧ (∀ e, o ≠ .ev (.supArrive e))
+def quiet (l : List Out) : Prop :=
+  ∀ o ∈ l, (∀ p e, o ≠ .ev (.emit p e)) ∧ (∀ e, o ≠ .ev (.supArrive e)) ∧ (∀ m e, o ≠ .eff (.monSend m e))
 
 theorem emitsOf_tag_quiet (i : Nat) (l : List Out) (h : quiet l) : emitsOf (l.map (fun o => (i, o))) = [] := by
   induction l with
@@ -71,6 +74,7 @@ theorem emitsOf_tag_quiet (i : Nat) (l : List Out) (h : quiet l) : emitsOf (l.ma
     have hl : quiet l := fun x hx => h x (by simp [hx])
     cases o with
     | ev e => cases e <;> first | (exact absurd rfl (ho.1 _ _)) | simpa [emitsOf] using ih hl
+    | eff x => cases x <;> first | (exact absurd rfl (ho.2.2 _ _)) | simpa [emitsOf] using ih hl
     | _ => simpa [emitsOf] using ih hl
 
 theorem arrivalsOf_tag_quiet (i : Nat) (l : List Out) (h : quiet l) : arrivalsOf (l.map (fun o => (i, o))) = [] := by
@@ -80,7 +84,7 @@ theorem arrivalsOf_tag_quiet (i : Nat) (l : List Out) (h : quiet l) : arrivalsOf
     have ho := h o (by simp)
     have hl : quiet l := fun x hx => h x (by simp [hx])
     cases o with
-    | ev e => cases e <;> first | (exact absurd rfl (ho.2 _)) | simpa [arrivalsOf] using ih hl
+    | ev e => cases e <;> first | (exact absurd rfl (ho.2.1 _)) | simpa [arrivalsOf] using ih hl
     | _ => simpa [arrivalsOf] using ih hl
 
 theorem tails_quiet (a a' : Actor) : quiet (supTail a a' ++ snapTail a') := by
@@ -103,11 +107,12 @@ theorem opTreeTaken_quiet (a : Actor) : quiet (opTreeTaken a).2 := by
     simp only [List.mem_cons, List.mem_nil_iff, or_false] at ho
     subst ho; simp
 
-theorem stepCore_quiet (a : Actor) (op : AOp) (h : op = .treeTaken ∨ (∃ c, op = .kidAdd c) ∨ ∃ c, op = .kidDel c) :
+theorem stepCore_quiet (a : Actor) (op : AOp)
+    (h : op = .treeTaken ∨ (∃ c, op = .kidAdd c) ∨ (∃ c, op = .kidDel c) ∨ ∃ c, op = .monDrop c) :
     quiet (a.stepCore op).2 := by
   have hnote : ∀ t : String, quiet [Out.note t] := by
     intro t o ho; simp at ho; subst ho; simp
-  rcases h with rfl | ⟨c, rfl⟩ | ⟨c, rfl⟩
+  rcases h with rfl | ⟨c, rfl⟩ | ⟨c, rfl⟩ | ⟨c, rfl⟩
   · simp only [Actor.stepCore]; split
     · exact hnote _
     · exact opTreeTaken_quiet a
@@ -117,9 +122,13 @@ theorem stepCore_quiet (a : Actor) (op : AOp) (h : op = .treeTaken ∨ (∃ c, o
   · simp only [Actor.stepCore]; split
     · exact hnote _
     · intro o ho; simp [Actor.envOp] at ho
+  · simp only [Actor.stepCore]; split
+    · exact hnote _
+    · simp only [Actor.envOp]; exact hnote _
 
 /-- `treeTaken`, `kidAdd`, `kidDel` are quiet. -/
-theorem step_quiet (a : Actor) (op : AOp) (h : op = .treeTaken ∨ (∃ c, op = .kidAdd c) ∨ ∃ c, op = .kidDel c) :
+theorem step_quiet (a : Actor) (op : AOp)
+    (h : op = .treeTaken ∨ (∃ c, op = .kidAdd c) ∨ (∃ c, op = .kidDel c) ∨ ∃ c, op = .monDrop c) :
     quiet (a.step op).2 := by
   intro o ho
   rw [step_eq, List.append_assoc, List.mem_append] at ho
@@ -165,7 +174,7 @@ theorem apply_routed_hasCell (w : World) (i : Nat) (op : AOp) (h : AOp.isRouted 
   simp [World.hasCell, apply_length, apply_routed_phase w i op h p]
 
 theorem apply_quiet (w : World) (i : Nat) (op : AOp)
-    (h : op = .treeTaken ∨ (∃ c, op = .kidAdd c) ∨ ∃ c, op = .kidDel c) :
+    (h : op = .treeTaken ∨ (∃ c, op = .kidAdd c) ∨ (∃ c, op = .kidDel c) ∨ ∃ c, op = .monDrop c) :
     emitsOf (w.apply i op).2 = [] ∧ arrivalsOf (w.apply i op).2 = [] := by
   unfold World.apply
   split
@@ -246,9 +255,25 @@ theorem effects_cascade_delivery (fuel : Nat) :
                 fun h => by simpa [World.effectsDone] using h⟩
             | unlink p =>
               exact ⟨w.apply p (.kidDel src), rfl, fun q => apply_routed_hasCell w p _ rfl q,
-                (apply_quiet w p _ (Or.inr (Or.inr ⟨src, rfl⟩))).1,
-                by simpa [deliverable, emitsOf] using (apply_quiet w p _ (Or.inr (Or.inr ⟨src, rfl⟩))).2,
+                (apply_quiet w p _ (Or.inr (Or.inr (Or.inl ⟨src, rfl⟩)))).1,
+                by simpa [deliverable, emitsOf] using (apply_quiet w p _ (Or.inr (Or.inr (Or.inl ⟨src, rfl⟩)))).2,
                 fun h => by simpa [World.effectsDone] using h⟩
+            | monSend m e =>
+              have ha := apply_supArrive w m e
+              have hdel : arrivalsOf (w.apply m (.supArrive e)).2 = deliverable w (emitsOf [(src, Out.eff (.monSend m e))]) := by
+                rw [ha.2]; simp [deliverable, emitsOf]; split <;> simp_all
+              by_cases hpo : (w.get m).portsOpen = true
+              · refine ⟨w.apply m (.supArrive e), by simp [World.effects, hpo],
+                  fun q => apply_routed_hasCell w m _ rfl q, ha.1, hdel,
+                  fun h => by simpa [World.effectsDone, hpo] using h⟩
+              · have hq := apply_quiet (w.apply m (.supArrive e)).1 src (.monDrop m) (Or.inr (Or.inr (Or.inr ⟨m, rfl⟩)))
+                refine ⟨(((w.apply m (.supArrive e)).1.apply src (.monDrop m)).1,
+                    (w.apply m (.supArrive e)).2 ++ ((w.apply m (.supArrive e)).1.apply src (.monDrop m)).2),
+                  by simp [World.effects, hpo], ?_, ?_, ?_, fun h => by simpa [World.effectsDone, hpo] using h⟩
+                · intro q
+                  rw [apply_routed_hasCell _ src _ rfl q, apply_routed_hasCell w m _ rfl q]
+                · rw [emitsOf_append, ha.1, hq.1]; rfl
+                · rw [arrivalsOf_append, hq.2, List.append_nil]; exact hdel
         obtain ⟨r, hr, h1, h2, h3, h4⟩ := head
         obtain ⟨e1, e2, e3, e4⟩ := ihe r.1 rest
         rw [hr]
@@ -340,6 +365,17 @@ theorem effects_cascade_frame (fuel : Nat) (i : Nat) :
           | cascade kids => exact hsplit _ hi (ihc w _ (fun x hx => hi x (by simp [hx])))
           | link p => exact hsplit _ hi (apply_frame w _ _ rfl i (fun x hx => hi x (by simp [hx])))
           | unlink p => exact hsplit _ hi (apply_frame w _ _ rfl i (fun x hx => hi x (by simp [hx])))
+          | monSend m e =>
+            by_cases hpo : (w.get m).portsOpen = true
+            · simp only [hpo, ↓reduceIte] at hi ⊢
+              exact hsplit _ hi (apply_frame w _ _ rfl i (fun x hx => hi x (by simp [hx])))
+            · simp only [hpo, Bool.false_eq_true, ↓reduceIte] at hi ⊢
+              have h1 := apply_frame w m (.supArrive e) rfl i (fun x hx => hi x (by simp [hx]))
+              have h2 := apply_frame (w.apply m (.supArrive e)).1 src (.monDrop m) rfl i
+                (fun x hx => hi x (by simp [hx]))
+              exact hsplit (((w.apply m (.supArrive e)).1.apply src (.monDrop m)).1,
+                (w.apply m (.supArrive e)).2 ++ ((w.apply m (.supArrive e)).1.apply src (.monDrop m)).2) hi
+                (by rw [h2, h1])
     · intro w kids hi
       cases kids with
       | nil => rfl
